@@ -139,7 +139,9 @@ def run(ctx: Ctx):
                 if h.kind in ("reduce-all", "row-pick") and deps == {"i"} and uni_i and not vg.params_of(h.operand) - {"td"}:
                     ctx.note(f"{lab}: first-step shortcut on the row-uniform key td['i'] ({text})")
                     continue
-                why = EXCEPTIONS.get((fn, h.kind, text))
+                from .C04 import alpha_table
+                from ..model import alpha_key
+                why = alpha_table(EXCEPTIONS).get((fn, h.kind, alpha_key(text)))
                 if why is not None:
                     used.add((fn, h.kind, text))
                     ctx.note(f"{lab}: exception `{text}` in {fn}: {why}")
@@ -147,7 +149,7 @@ def run(ctx: Ctx):
                 bad += 1
                 ctx.ob(rule, f"{lab}:{fn}:{h.kind}", False, where,
                        f"{h.kind} `{text}` in {fn}: {h.why}. It reaches the output of {lab}: the result for one instance depends on its batch-mates / on the batch size",
-                       construct=f"{fn}:{h.kind}:{text}")
+                       construct=f"{fn}:{h.kind}:{alpha_key(text)}")
             if not bad:
                 ctx.ob("C14.a", lab, True, fi.loc, f"{len(per)} batch-global op(s), all justified" if per else "no batch-global op reaches the output")
     ctx.extra["forwards_analysed"] = n_forward
